@@ -83,7 +83,7 @@ theorem Inv.commit_view {cfg : Cfg} {s : St} {d : Disk} (h : Inv cfg s d) {j : J
   rw [hv] at hv'; cases hv'
   have hb := h.bounds (h.not_crashed hj)
   have hbv := hb.all mf hparts.cur _ (Nat.le_refl _) v hvl
-  have hext := hvok.extend hed (fun g hg => hg) (hok.outs_on_disk hbc hpc.2) s.nextFile hbv.2.1
+  have hext := hvok.extend hed (fun g hg => hg) (fun g hg => hg) (hok.outs_on_disk hbc hpc.2) s.nextFile hbv.2.1
     (fun o ho => (hed.fresh o ho).2) hed.mono.2.2.2.2
   exact ⟨mf, v0, v, hparts, hv, hvl, hed, hext, Nat.le_trans hmono hed.mono.1⟩
 
